@@ -153,23 +153,6 @@ Section Regen.
   Qed.
 End Regen.
 
-(* ---- the column-side instance *)
-Theorem regen_fresh p used fuel cur n nm n' : regen fuel p used cur n = Some (nm, n') -> ~ In nm used.
-Proof. exact (regen_with_fresh _ _ _ _ _ _ _). Qed.
-
-Theorem regen_keeps p used fuel nm n : ~ In nm used -> regen fuel p used (Some nm) n = Some (nm, n).
-Proof. exact (regen_with_keeps _ _ _ _ _). Qed.
-
-Theorem regen_total p used fuel cur n : (S (length used) < fuel)%nat -> exists nm n', regen fuel p used cur n = Some (nm, n').
-Proof. exact (regen_with_total p _ _ (plain_gen_ok p) (plain_gen_total p) _ _ _). Qed.
-
-Theorem regen_terminates p used cur n : exists nm n', regen (S (S (length used))) p used cur n = Some (nm, n').
-Proof. apply regen_total. apply le_n. Qed.
-
-Lemma regen_origin p used fuel cur n nm n' : regen fuel p used cur n = Some (nm, n') ->
-  (cur = Some nm /\ n' = n) \/ (exists k, n <= k /\ nm = gen_name p k /\ k < n').
-Proof. exact (regen_with_origin p _ _ (plain_gen_ok p) _ _ _ _ _). Qed.
-
 (* ------------------------------------------------------------------ gen_unreserved *)
 
 Section Unreserved.
@@ -225,7 +208,11 @@ Section Unreserved.
   Qed.
 End Unreserved.
 
-(* ---- the table-side loop *)
+(* without reserved names the generator is plain NameGenerator::gen *)
+Lemma gen_table_name_nil lower p n : gen_table_name lower p [] n = plain_gen p n.
+Proof. reflexivity. Qed.
+
+(* ---- the loop around it (tables and columns) *)
 Theorem regen_r_fresh lower p reserved used fuel cur n nm n' :
   regen_r fuel lower p reserved used cur n = Some (nm, n') -> ~ In nm used.
 Proof. exact (regen_with_fresh _ _ _ _ _ _ _). Qed.
@@ -388,135 +375,204 @@ Qed.
 
 (* ------------------------------------------------------------------ columns *)
 
-Lemma ensure_column_name_wild p d b n : fst (ensure_column_name p d b n) = None <-> d = DWild.
+Section Columns.
+  Variable lower : str -> str.
+  Variable p : str.
+  Variable reserved : list str.
+
+  (* a generated name in the sense of the repair: spelled prefix+number and not reserved *)
+  Definition genlike (x : str) : Prop := (exists k, x = gen_name p k) /\ ~ In (lower x) reserved.
+
+  Lemma ensure_column_name_wild d b n old n' : ensure_column_name lower p reserved d b n = Some (old, n') -> (old = None <-> d = DWild).
+  Proof.
+    destruct d as [|[nm|]|]; destruct b; cbn [ensure_column_name]; intro H;
+      try (destruct (gen_table_name lower p reserved n) as [[x n1]|]; [|discriminate]);
+      injection H as <- _; split; intro E; try reflexivity; discriminate.
+  Qed.
+
+  (* the name that comes out came in (as `before` or as the declared name), or was generated just now *)
+  Lemma ensure_column_name_origin d b n x n' : ensure_column_name lower p reserved d b n = Some (Some x, n') ->
+    (n' = n /\ (b = Some x \/ d = DSingle (Some x))) \/ (b = None /\ genlike x /\ exists k, n <= k /\ x = gen_name p k /\ n' = N.succ k).
+  Proof.
+    assert (forall x n', gen_table_name lower p reserved n = Some (x, n') -> genlike x /\ exists k, n <= k /\ x = gen_name p k /\ n' = N.succ k) as G.
+    { intros y m H. destruct (gen_unreserved_spec _ _ _ _ _ _ _ H) as (k & Hk & -> & -> & Hr).
+      split; [split; [eauto | exact Hr] | eauto]. }
+    assert (b = None -> match gen_table_name lower p reserved n with Some (x0, n0) => Some (Some x0, n0) | None => None end = Some (Some x, n') ->
+            (n' = n /\ (b = Some x \/ d = DSingle (Some x))) \/ (b = None /\ genlike x /\ exists k, n <= k /\ x = gen_name p k /\ n' = N.succ k)) as GC.
+    { intros Hb H. destruct (gen_table_name lower p reserved n) as [[y n1]|] eqn:E; [|discriminate].
+      injection H as <- <-. right. split; [exact Hb | exact (G _ _ eq_refl)]. }
+    destruct d as [|[nm|]|]; destruct b as [b0|]; cbn [ensure_column_name]; intro H.
+    - discriminate.
+    - discriminate.
+    - injection H as <- <-. left. split; [reflexivity | left; reflexivity].
+    - injection H as <- <-. left. split; [reflexivity | right; reflexivity].
+    - injection H as <- <-. left. split; [reflexivity | left; reflexivity].
+    - exact (GC eq_refl H).
+    - injection H as <- <-. left. split; [reflexivity | left; reflexivity].
+    - exact (GC eq_refl H).
+  Qed.
+
+  Lemma split_step_spec used old n new n' : split_step lower p reserved used old n = Some (new, n') ->
+    (old = None /\ new = None /\ n' = n) \/
+    (exists o x, old = Some o /\ new = Some x /\ ~ In x used /\ ((x = o /\ n' = n) \/ genlike x)).
+  Proof.
+    destruct old as [o|]; cbn [split_step]; intro H.
+    - destruct (regen_r (S (S (length used))) lower p reserved used (Some o) n) as [[x n1]|] eqn:R; [|discriminate]. injection H as <- <-.
+      right. exists o, x. split; [reflexivity | split; [reflexivity|]]. split; [exact (regen_r_fresh _ _ _ _ _ _ _ _ _ R)|].
+      destruct (regen_with_unreserved _ _ _ _ _ _ _ _ _ R) as [[E ->]|[(k & _ & -> & _) Hr]].
+      + left. split; [congruence | reflexivity].
+      + right. split; [eauto | exact Hr].
+    - injection H as <- <-. left. auto.
+  Qed.
+
+  Lemma split_step_keeps used nm n : ~ In nm used -> split_step lower p reserved used (Some nm) n = Some (Some nm, n).
+  Proof. intro H. cbn [split_step]. rewrite (regen_r_keeps lower p reserved used _ nm n H). reflexivity. Qed.
+
+  (* anchor_split is collision-free (EXACT comparison) for ALL inputs and all reserved sets *)
+  Theorem split_names_spec : forall cols used n l n',
+    split_names lower p reserved cols used n = Some (l, n') ->
+    NoDup (somes l) /\ (forall x, In x (somes l) -> ~ In x used) /\ length l = length cols /\
+    Forall2 (fun c x => x = None <-> fst c = DWild) cols l.
+  Proof.
+    induction cols as [|[d b] cs IH]; intros used n l n' H; cbn [split_names] in H.
+    - injection H as <- _. repeat split; [constructor | intros x [] | constructor].
+    - destruct (ensure_column_name lower p reserved d b n) as [[old n0]|] eqn:En; [|discriminate].
+      destruct (split_step lower p reserved used old n0) as [[new n1]|] eqn:St; [|discriminate].
+      destruct (split_names lower p reserved cs (add_used new used) n1) as [[l1 n2]|] eqn:A; [|discriminate].
+      injection H as <- _. destruct (IH _ _ _ _ A) as (ND & F & Len & FW).
+      assert (new = None <-> d = DWild) as W.
+      { rewrite <- (ensure_column_name_wild _ _ _ _ _ En).
+        destruct (split_step_spec _ _ _ _ _ St) as [(-> & -> & _)|(o & x & -> & -> & _)]; split; intro; try reflexivity; discriminate. }
+      destruct (split_step_spec _ _ _ _ _ St) as [(_ & -> & _)|(o & x & _ & -> & Fr & _)]; cbn [somes add_used] in *.
+      + split; [exact ND | split; [exact F | split; [cbn [length]; f_equal; exact Len | constructor; [exact W | exact FW]]]].
+      + split; [|split; [|split]].
+        * constructor; [|exact ND]. intro Hin. apply (F _ Hin). left. reflexivity.
+        * intros y [<-|Hy]; [exact Fr|]. intro Hu. apply (F _ Hy). right. exact Hu.
+        * cbn [length]. f_equal. exact Len.
+        * constructor; [exact W | exact FW].
+  Qed.
+
+  (* a column that has a name which is not taken earlier at the split keeps it *)
+  Theorem split_names_keeps d b nm cs used n l n' :
+    ensure_column_name lower p reserved d b n = Some (Some nm, n) -> ~ In nm used ->
+    split_names lower p reserved ((d, b) :: cs) used n = Some (l, n') -> exists l', l = Some nm :: l'.
+  Proof.
+    intros En Hn H. cbn [split_names] in H. rewrite En, (split_step_keeps used nm n Hn) in H.
+    destruct (split_names lower p reserved cs (add_used (Some nm) used) n) as [[l1 n2]|]; [|discriminate]. injection H as <- _. eauto.
+  Qed.
+
+  (* the names that reach a split from outside: `before` names and declared names *)
+  Definition col_user_names (cols : list (cdecl * option str)) (x : str) : Prop :=
+    exists d b, In (d, b) cols /\ (b = Some x \/ d = DSingle (Some x)).
+
+  (* every output name is a name that came in or a name generated (and unreserved) here *)
+  Lemma split_names_origin : forall cols used n l n',
+    split_names lower p reserved cols used n = Some (l, n') ->
+    forall x, In x (somes l) -> genlike x \/ col_user_names cols x.
+  Proof.
+    induction cols as [|[d b] cs IH]; intros used n l n' H x Hx; cbn [split_names] in H.
+    - injection H as <- _. destruct Hx.
+    - destruct (ensure_column_name lower p reserved d b n) as [[old n0]|] eqn:En; [|discriminate].
+      destruct (split_step lower p reserved used old n0) as [[new n1]|] eqn:St; [|discriminate].
+      destruct (split_names lower p reserved cs (add_used new used) n1) as [[l1 n2]|] eqn:A; [|discriminate].
+      injection H as <- _.
+      assert (In x (somes l1) -> genlike x \/ col_user_names ((d, b) :: cs) x) as Rec.
+      { intro Hin. destruct (IH _ _ _ _ A x Hin) as [K|(d0 & b0 & Hin0 & Hor)]; [left; exact K | right].
+        exists d0, b0. split; [right; exact Hin0 | exact Hor]. }
+      destruct (split_step_spec _ _ _ _ _ St) as [(_ & -> & _)|(o & y & -> & -> & _ & Hy)]; cbn [somes] in Hx.
+      + exact (Rec Hx).
+      + destruct Hx as [<-|Hx]; [|exact (Rec Hx)].
+        destruct Hy as [[-> _]|G]; [|left; exact G].
+        destruct (ensure_column_name_origin _ _ _ _ _ En) as [(_ & Hor)|(_ & G & _)]; [right | left; exact G].
+        exists d, b. split; [left; reflexivity | exact Hor].
+  Qed.
+
+  Hypothesis gen_stable : forall k, lower (gen_name p k) = gen_name p k.
+
+  Lemma ensure_column_name_total d b n : exists old n', ensure_column_name lower p reserved d b n = Some (old, n').
+  Proof.
+    destruct d as [|[nm|]|]; destruct b; cbn [ensure_column_name]; eauto;
+      destruct (gen_table_name_total lower p reserved gen_stable n) as (x & n' & E); rewrite E; eauto.
+  Qed.
+
+  Lemma split_step_total used old n : exists new n', split_step lower p reserved used old n = Some (new, n').
+  Proof.
+    destruct old as [o|]; cbn [split_step]; [|eauto].
+    destruct (regen_r_total lower p reserved used (Some o) n gen_stable) as (x & n' & R). rewrite R. eauto.
+  Qed.
+
+  Theorem split_names_total : forall cols used n, exists l n', split_names lower p reserved cols used n = Some (l, n').
+  Proof.
+    induction cols as [|[d b] cs IH]; intros used n; cbn [split_names]; [eauto|].
+    destruct (ensure_column_name_total d b n) as (old & n0 & En). rewrite En.
+    destruct (split_step_total used old n0) as (new & n1 & St). rewrite St.
+    destruct (IH (add_used new used) n1) as (l & n2 & A). rewrite A. eauto.
+  Qed.
+
+  Theorem split_names_fresh cols n :
+    exists l n', split_names lower p reserved cols [] n = Some (l, n') /\ NoDup (somes l) /\ length l = length cols /\
+                 Forall2 (fun c x => x = None <-> fst c = DWild) cols l.
+  Proof.
+    destruct (split_names_total cols [] n) as (l & n' & A). exists l, n'. split; [exact A|].
+    destruct (split_names_spec _ _ _ _ _ A) as (ND & _ & Len & FW). auto.
+  Qed.
+
+  (* the invented alias: a generated, unreserved name outside the used set *)
+  Theorem select_item_alias_fresh used n :
+    exists nm n', select_item_alias lower p reserved used n = Some (nm, n') /\ ~ In nm used /\ genlike nm /\
+                  exists k, n <= k /\ nm = gen_name p k /\ k < n'.
+  Proof.
+    unfold select_item_alias. destruct (regen_r_total lower p reserved used None n gen_stable) as (nm & n' & R). exists nm, n'.
+    split; [exact R | split; [exact (regen_r_fresh _ _ _ _ _ _ _ _ _ R)|]].
+    destruct (regen_with_unreserved _ _ _ _ _ _ _ _ _ R) as [[E _]|[(k & Hk & -> & Hlt) Hr]]; [discriminate|].
+    split; [split; [eauto | exact Hr] | eauto].
+  Qed.
+
+  (* CASE-INSENSITIVE distinctness at a split -- what the repair of F33b buys.  Hypothesis: every name that comes in is a
+     user name whose lower-cased form is reserved, or a generated unreserved name (one that an earlier call made). *)
+  Theorem split_names_ci_fresh cols n l n' :
+    (forall u, col_user_names cols u -> In (lower u) reserved \/ genlike u) ->
+    split_names lower p reserved cols [] n = Some (l, n') ->
+    forall x y, In x (somes l) -> In y (somes l) -> genlike x -> x <> y -> lower x <> lower y.
+  Proof.
+    intros HU A x y Hx Hy [(k & ->) Hr] Hne E. rewrite gen_stable in E, Hr.
+    assert (In (lower y) reserved \/ genlike y) as [Ry|[(k' & ->) _]].
+    { destruct (split_names_origin _ _ _ _ _ A y Hy) as [G|U]; [right; exact G | exact (HU _ U)]. }
+    - apply Hr. rewrite E. exact Ry.
+    - rewrite gen_stable in E. apply Hne. exact E.
+  Qed.
+
+  (* PARTIAL (any reserved set, in particular none): when no incoming name is a case variant of a generated name (other
+     than the generated spelling itself), a name of the split that is spelled like a generated one is matched,
+     case-insensitively, only by itself *)
+  Theorem split_names_ci_partial cols n l n' :
+    (forall u k, col_user_names cols u -> lower u = gen_name p k -> u = gen_name p k) ->
+    split_names lower p reserved cols [] n = Some (l, n') ->
+    forall x y k, In x (somes l) -> In y (somes l) -> x = gen_name p k -> lower y = lower x -> y = x.
+  Proof.
+    intros NK A x y k Hx Hy -> E. rewrite gen_stable in E.
+    destruct (split_names_origin _ _ _ _ _ A y Hy) as [[(k' & ->) _]|U].
+    - rewrite gen_stable in E. exact E.
+    - exact (NK _ _ U E).
+  Qed.
+End Columns.
+
+(* the statement about the source as it is: full strength with the repair, the refutation without *)
+Lemma column_ci_status p (repaired : bool) (Refuted : Prop) : Refuted ->
+  if repaired
+  then forall lower rq_columns cols n l n',
+         (forall k, lower (gen_name p k) = gen_name p k) ->
+         (forall u, (exists d b, In (d, b) cols /\ (b = Some u \/ d = DSingle (Some u))) ->
+                    In u rq_columns \/ ((exists k, u = gen_name p k) /\ ~ In (lower u) (code_col_reserved true lower rq_columns))) ->
+         split_names lower p (code_col_reserved true lower rq_columns) cols [] n = Some (l, n') ->
+         forall x y, In x (somes l) -> In y (somes l) ->
+           ((exists k, x = gen_name p k) /\ ~ In (lower x) (code_col_reserved true lower rq_columns)) -> x <> y -> lower x <> lower y
+  else Refuted.
 Proof.
-  destruct d as [|[nm|]|]; destruct b; cbn; split; intro H; try reflexivity; try discriminate.
-Qed.
-
-Lemma ensure_column_name_origin p d b n x n' : ensure_column_name p d b n = (Some x, n') ->
-  (n' = n /\ (b = Some x \/ d = DSingle (Some x))) \/ (x = gen_name p n /\ n' = N.succ n /\ b = None).
-Proof.
-  destruct d as [|[nm|]|]; destruct b; cbn; intro H; try discriminate; injection H as <- <-;
-    first [ left; split; [reflexivity|]; first [left; reflexivity | right; reflexivity]
-          | right; split; [reflexivity | split; reflexivity] ].
-Qed.
-
-Lemma split_step_spec p used old n new n' : split_step p used old n = Some (new, n') ->
-  (old = None /\ new = None /\ n' = n) \/
-  (exists o x, old = Some o /\ new = Some x /\ ~ In x used /\ ((x = o /\ n' = n) \/ exists k, n <= k /\ x = gen_name p k /\ k < n')).
-Proof.
-  destruct old as [o|]; cbn [split_step]; intro H.
-  - destruct (regen (S (S (length used))) p used (Some o) n) as [[x n1]|] eqn:R; [|discriminate]. injection H as <- <-.
-    right. exists o, x. split; [reflexivity | split; [reflexivity|]]. split; [exact (regen_fresh _ _ _ _ _ _ _ R)|].
-    destruct (regen_origin _ _ _ _ _ _ _ R) as [[E ->]|K]; [left; split; [congruence | reflexivity] | right; exact K].
-  - injection H as <- <-. left. auto.
-Qed.
-
-Lemma split_step_total p used old n : exists new n', split_step p used old n = Some (new, n').
-Proof.
-  destruct old as [o|]; cbn [split_step]; [|eauto].
-  destruct (regen_terminates p used (Some o) n) as (x & n' & R). rewrite R. eauto.
-Qed.
-
-Lemma split_step_keeps p used nm n : ~ In nm used -> split_step p used (Some nm) n = Some (Some nm, n).
-Proof. intro H. cbn [split_step]. rewrite (regen_keeps p used _ nm n H). reflexivity. Qed.
-
-(* anchor_split is collision-free (exact comparison) for ALL inputs *)
-Theorem split_names_spec p : forall cols used n l n',
-  split_names p cols used n = Some (l, n') ->
-  NoDup (somes l) /\ (forall x, In x (somes l) -> ~ In x used) /\ length l = length cols /\
-  Forall2 (fun c x => x = None <-> fst c = DWild) cols l.
-Proof.
-  induction cols as [|[d b] cs IH]; intros used n l n' H; cbn [split_names] in H.
-  - injection H as <- _. repeat split; [constructor | intros x [] | constructor].
-  - destruct (ensure_column_name p d b n) as [old n0] eqn:En.
-    destruct (split_step p used old n0) as [[new n1]|] eqn:St; [|discriminate].
-    destruct (split_names p cs (add_used new used) n1) as [[l1 n2]|] eqn:A; [|discriminate].
-    injection H as <- _. destruct (IH _ _ _ _ A) as (ND & F & Len & FW).
-    assert (new = None <-> d = DWild) as W.
-    { rewrite <- (ensure_column_name_wild p d b n), En. cbn [fst].
-      destruct (split_step_spec _ _ _ _ _ _ St) as [(-> & -> & _)|(o & x & -> & -> & _)]; split; intro; try reflexivity; discriminate. }
-    destruct (split_step_spec _ _ _ _ _ _ St) as [(_ & -> & _)|(o & x & _ & -> & Fr & _)]; cbn [somes add_used] in *.
-    + split; [exact ND | split; [exact F | split; [cbn [length]; f_equal; exact Len | constructor; [exact W | exact FW]]]].
-    + split; [|split; [|split]].
-      * constructor; [|exact ND]. intro Hin. apply (F _ Hin). left. reflexivity.
-      * intros y [<-|Hy]; [exact Fr|]. intro Hu. apply (F _ Hy). right. exact Hu.
-      * cbn [length]. f_equal. exact Len.
-      * constructor; [exact W | exact FW].
-Qed.
-
-Theorem split_names_total p : forall cols used n, exists l n', split_names p cols used n = Some (l, n').
-Proof.
-  induction cols as [|[d b] cs IH]; intros used n; cbn [split_names]; [eauto|].
-  destruct (ensure_column_name p d b n) as [old n0].
-  destruct (split_step_total p used old n0) as (new & n1 & St). rewrite St.
-  destruct (IH (add_used new used) n1) as (l & n2 & A). rewrite A. eauto.
-Qed.
-
-Theorem split_names_fresh p cols n :
-  exists l n', split_names p cols [] n = Some (l, n') /\ NoDup (somes l) /\ length l = length cols /\
-               Forall2 (fun c x => x = None <-> fst c = DWild) cols l.
-Proof.
-  destruct (split_names_total p cols [] n) as (l & n' & A). exists l, n'. split; [exact A|].
-  destruct (split_names_spec p _ _ _ _ _ A) as (ND & _ & Len & FW). auto.
-Qed.
-
-(* a column that has a name which is not taken earlier at the split keeps it *)
-Theorem split_names_keeps p d b nm cs used n l n' :
-  ensure_column_name p d b n = (Some nm, n) -> ~ In nm used ->
-  split_names p ((d, b) :: cs) used n = Some (l, n') -> exists l', l = Some nm :: l'.
-Proof.
-  intros En Hn H. cbn [split_names] in H. rewrite En, (split_step_keeps p used nm n Hn) in H.
-  destruct (split_names p cs (add_used (Some nm) used) n) as [[l1 n2]|]; [|discriminate]. injection H as <- _. eauto.
-Qed.
-
-Theorem select_item_alias_fresh p used n :
-  exists nm n', select_item_alias p used n = Some (nm, n') /\ ~ In nm used /\ exists k, n <= k /\ nm = gen_name p k /\ k < n'.
-Proof.
-  unfold select_item_alias. destruct (regen_terminates p used None n) as (nm & n' & R). exists nm, n'.
-  split; [exact R | split; [exact (regen_fresh _ _ _ _ _ _ _ R)|]].
-  destruct (regen_origin _ _ _ _ _ _ _ R) as [[E _]|K]; [discriminate | exact K].
-Qed.
-
-(* ---- columns compared case-insensitively: every output name is a name that came in or a generated name *)
-Lemma split_names_origin p : forall cols used n l n',
-  split_names p cols used n = Some (l, n') ->
-  forall x, In x (somes l) ->
-    (exists k, x = gen_name p k) \/ (exists d b, In (d, b) cols /\ (b = Some x \/ d = DSingle (Some x))).
-Proof.
-  induction cols as [|[d b] cs IH]; intros used n l n' H x Hx; cbn [split_names] in H.
-  - injection H as <- _. destruct Hx.
-  - destruct (ensure_column_name p d b n) as [old n0] eqn:En.
-    destruct (split_step p used old n0) as [[new n1]|] eqn:St; [|discriminate].
-    destruct (split_names p cs (add_used new used) n1) as [[l1 n2]|] eqn:A; [|discriminate].
-    injection H as <- _.
-    assert (In x (somes l1) -> (exists k, x = gen_name p k) \/ (exists d0 b0, In (d0, b0) ((d, b) :: cs) /\ (b0 = Some x \/ d0 = DSingle (Some x)))) as Rec.
-    { intro Hin. destruct (IH _ _ _ _ A x Hin) as [K|(d0 & b0 & Hin0 & Hor)]; [left; exact K | right].
-      exists d0, b0. split; [right; exact Hin0 | exact Hor]. }
-    destruct (split_step_spec _ _ _ _ _ _ St) as [(_ & -> & _)|(o & y & -> & -> & _ & Hy)]; cbn [somes] in Hx.
-    + exact (Rec Hx).
-    + destruct Hx as [<-|Hx]; [|exact (Rec Hx)].
-      destruct Hy as [[-> _]|(k & _ & -> & _)]; [|left; eauto].
-      destruct (ensure_column_name_origin _ _ _ _ _ _ En) as [(_ & Hor)|(-> & _)]; [right | left; eauto].
-      exists d, b. split; [left; reflexivity | exact Hor].
-Qed.
-
-(* the user names that reach a split *)
-Definition col_user_names (cols : list (cdecl * option str)) (x : str) : Prop :=
-  exists d b, In (d, b) cols /\ (b = Some x \/ d = DSingle (Some x)).
-
-(* PARTIAL: when no user column is a case variant of a generated name (other than the generated spelling itself), a name
-   of the split that is spelled like a generated one is matched, case-insensitively, only by itself *)
-Theorem split_names_ci_partial lower p cols n l n' :
-  (forall k, lower (gen_name p k) = gen_name p k) ->
-  (forall u k, col_user_names cols u -> lower u = gen_name p k -> u = gen_name p k) ->
-  split_names p cols [] n = Some (l, n') ->
-  forall x y k, In x (somes l) -> In y (somes l) -> x = gen_name p k -> lower y = lower x -> y = x.
-Proof.
-  intros St NK A x y k Hx Hy -> E. rewrite St in E.
-  destruct (split_names_origin p _ _ _ _ _ A y Hy) as [(k' & ->)|U].
-  - rewrite St in E. exact E.
-  - exact (NK _ _ U E).
+  intro R. destruct repaired; [|exact R].
+  intros lower rq cols n l n' St HU A. apply (split_names_ci_fresh lower p _ St cols n l n'); [|exact A].
+  intros u Hu. destruct (HU u Hu) as [Hin|G]; [left | right; exact G].
+  cbn [code_col_reserved]. unfold reserved_of. apply in_map, Hin.
 Qed.
 
 Lemma not_nodup_witness (x : str) (l : list str) : In x l -> ~ NoDup (x :: l).
